@@ -28,7 +28,8 @@ EXTENDS Integers, Sequences, FiniteSets, TLC, Json, IOUtils
 
 CONSTANTS DistTol,    \* 1e-4 units (distance x pixel size)
           ResTol,     \* 1e-7 units (offset and rotation residuals)
-          AngTol      \* 1e-4 degree
+          AngTol,     \* 1e-4 degree
+          MovedDistTol \* 1e-9 (distance of the moved lists against the Euclidean distance of the moved positions)
 
 Traces == ndJsonDeserialize(IOEnv.TRACE_FILE)
 
@@ -67,6 +68,9 @@ QueryFailing(e) ==
 MovedFailing(e) ==
     IF e.nn_after # e.nn_before THEN "C18_MotionInvariant_neighbours"
     ELSE IF \E r \in Idx(e.dd) : e.dd[r] > DistTol \/ e.dd[r] < 0 THEN "C18_MotionInvariant_distance"
+    \* wherever the tomogram has been moved to (translations up to 1e7 voxels), the reported distance is the Euclidean
+    \* distance of the positions as stored, to float64 rounding - also with few candidates relative to k
+    ELSE IF \E r \in Idx(e.dm) : e.dm[r] > MovedDistTol \/ e.dm[r] < 0 THEN "C18_DistanceIsEuclidTimesPixel"
     ELSE IF \E r \in Idx(e.df) : e.df[r] > DistTol \/ e.df[r] < 0 THEN "C18_MotionInvariant_particle_frame"
     ELSE IF \E r \in Idx(e.da) : e.da[r] > AngTol \/ e.da[r] < 0 THEN "C18_MotionInvariant_angular_distance"
     ELSE IF \E r \in Idx(e.dr) : e.dr[r] > ResTol \/ e.dr[r] < 0 THEN "C18_MotionInvariant_relative_orientation"
